@@ -843,6 +843,40 @@ def u_scale(c):
 TINY_BUDGET = 2.0 ** -45
 
 
+def barriers(c):
+    """energy barriers on the path (specification side, floats): budgets equal to one of them sit on a branch
+    boundary of the case tree"""
+    op = c["op"]
+    x, q = xq(sepv(op), op["dir"])
+    qf = float(q)
+    out = []
+    try:
+        if c["fam"] == "ip":
+            p = fl(op, "p")
+            kc = fl(op, "pref") * fl(op, "c1") * fl(op, "c2")
+            if kc > 0 and x > 0:
+                out.append(kc / qf ** (p / 2) - kc / (qf + x * x) ** (p / 2))
+            if kc < 0:
+                out.append(-kc / (qf + min(x, 0.0) ** 2) ** (p / 2))
+        elif c["fam"] in ("lj", "dep"):
+            m = MH("lj", fl(op, "k_"), fl(op, "sigma")) if c["fam"] == "lj" else MH("dep", fl(op, "k_"), fl(op, "r0"),
+                                                                                      int(op["p"]))
+            r = math.sqrt(qf + x * x)
+            Ucur, Umin = m.U(r), m.U(m.r0)
+            if x > 0 and qf < m.r0sq:
+                Urho = m.U(math.sqrt(qf))
+                out.append(Urho - (Ucur if r < m.r0 else Umin))
+                if c["fam"] == "lj":
+                    out.append(Urho - (Ucur if r < m.r0 else Umin) - Umin)
+            if c["fam"] == "lj":
+                out += [-Ucur, -Umin]
+                if x > 0 and qf >= m.r0sq:
+                    out.append(-m.U(math.sqrt(qf)))
+    except (ZeroDivisionError, OverflowError, Domain):
+        pass
+    return [b for b in out if math.isfinite(b)]
+
+
 def classify_failure(c, r):
     """Map an arithmetic failure / negative result to a known finding id (F3a..F3d) or None.
     Match = potential class + exception type + input class (budget below the rounding error of the energies on
@@ -852,9 +886,14 @@ def classify_failure(c, r):
     if fam not in ("ip", "lj", "dep"):
         return None
     x, q = xq(sepv(op), op["dir"])
-    tiny = fl(op, "dE") <= TINY_BUDGET * max(u_scale(c), 1e-300)
+    us = max(u_scale(c), 1e-300)
+    tiny = fl(op, "dE") <= TINY_BUDGET * us
+    on_barrier = any(abs(fl(op, "dE") - b) <= TINY_BUDGET * max(us, abs(b)) for b in barriers(c))
     if isinstance(r, list) and r and r[0] == "EXC":
         et, msg = r[1], r[2]
+        if on_barrier and not tiny and ((et == "TypeError" and "complex" in msg and fam == "lj") or
+                                        (et == "ValueError" and "math domain error" in msg)):
+            return "F3e"
         if fam == "lj" and et == "TypeError" and "complex" in msg and tiny:
             return "F3a"
         if fam in ("ip", "lj", "dep") and et == "ValueError" and "math domain error" in msg and tiny:
@@ -864,8 +903,12 @@ def classify_failure(c, r):
         if fam in ("ip", "lj") and et == "ZeroDivisionError" and q == 0 and x > 0:
             return "F3d"
         return None
-    if fam == "lj" and tiny:
-        return "F3c"
+    # negative result: cancellation x -/+ sqrt(n2 - q) with an error of the order sqrt(rounding error); only for
+    # budgets below the rounding error of the energies and only up to 2^-24 of the length scale
+    if tiny and not (isinstance(r, list) and r and r[0] == "EXC"):
+        v = b2f(r[0]) * fl(op, "speed")
+        if v < 0 and abs(v) <= 2.0 ** -24 * (abs(x) + math.sqrt(float(q))):
+            return "F3c"
     return None
 
 
@@ -1004,6 +1047,12 @@ def probes():
     lj([0.0, 1.169, 0.532], 1e-18, "F3b")
     lj([hx("-0x1.515d6f32a9c85p-1"), hx("0x1.b94b58954c542p-1"), hx("0x1.26c9a3915e037p-2")], 1e-20, "F3c")
     lj([hx("0x1.8213712895976p-1"), hx("0x1.a71ea8ec709a5p-1"), hx("0x1.76df56c47f4aap-4")], 1e-20, "F3c")
+    ip(0.5, -1.7, -1.0, 1.0, [0.0006791397355357976, 0.4269096503892061, -0.36029190810019507], 8.404376750062404e-07,
+       "F3e")
+    P.append({"fam": "lj", "tag": "F3e", "op": {"k": "lj_disp", "k_": f2b(2.0), "sigma": f2b(1.0),
+                                               "sep": bits([1.6779244360898145, 0.06593893868989249,
+                                                            -0.10859184213832003]),
+                                               "dir": 0, "speed": f2b(2.7), "dE": f2b(113132062882.96817)}})
     ip(6.0, 1.0, 1.0, 1.0, [1.5, 0.0, 0.0], 0.5, "F3d")
     ip(1.0, 1.0, 1.0, -1.0, [1.5, 0.0, 0.0], 0.5, "F3d")
     lj([1.5, 0.0, 0.0], 0.5, "F3d")
